@@ -1,0 +1,204 @@
+//go:build verif
+
+// Contracts for the message admission path of pubsub.go (properties C02, C03, C04, C06, C16, C19).
+// Comment-only.
+
+package pubsub
+
+// Function values supplied by the application or by the standard library (cancel functions,
+// option/feature/filter/score/ID callbacks, user validators). Calls through them are assumed
+// not to write any state of this module; they return arbitrary values. Listed as an
+// assumption in every evidence file that depends on it.
+//@ func *
+//@   dynpure cancel Cancel advertiseCancel done feature peerFilter filter AppSpecificScore
+//@   dynpure appSpecificRpcInspector msgID gen reducePXRecords getIP supportsProtocol protoMatchFunc
+//@   dynpure connFactory validate v customKey ready unregisterAfterFunc isDirect h
+// Callback fields of the extensions state are set once, in DefaultGossipSubRouter.
+//@   dynbind reportMisbehavior DefaultGossipSubRouter$1
+//@   dynbind sendRPC (*GossipSubRouter).sendRPC
+
+// Ghost abstractions of the two pluggable sets consulted on admission. The interface
+// contracts below are assumed for callers and proved for the in-package implementations
+// (MapBlacklist, TimeCachedBlacklist, FirstSeenCache, LastSeenCache) in their own contracts.
+//@ ghost var blk mset[string]
+// tcSeen[c][id]: time cache instance c remembers id (one ghost set per TimeCache instance)
+//@ ghost var tcSeen mmap[iface]mset[string]
+//@ spec fn seenIn(p *PubSub, id string) bool = tcSeen[p.seenMessages][id]
+
+//@ iface Blacklist.Contains
+//@   modifies nothing
+//@   ensures member: result == blk[arg0]
+
+//@ iface Blacklist.Add
+//@   modifies blk
+//@   ensures added: blk[arg0]
+//@   ensures grows: forall x string :: old(blk[x]) ==> blk[x]
+//@   ensures only: forall x string :: x != arg0 ==> blk[x] == old(blk[x])
+
+//@ iface TimeCache.Has
+//@   modifies nothing
+//@   ensures member: result == tcSeen[self][arg0]
+
+//@ iface TimeCache.Add
+//@   modifies tcSeen
+//@   ensures first: result == !old(tcSeen[self][arg0])
+//@   ensures present: tcSeen[self][arg0]
+//@   ensures others: forall c iface, x string :: c != self || x != arg0 ==> tcSeen[c][x] == old(tcSeen[c][x])
+
+//@ spec fn mustVerify(p *PubSub) bool = bitand(p.signPolicy, 2) != 0
+//@ spec fn mustSign(p *PubSub) bool = bitand(p.signPolicy, 1) != 0
+
+//@ func (MessageSignaturePolicy).mustVerify
+//@   inline
+//@ func (MessageSignaturePolicy).mustSign
+//@   inline
+
+//@ func (*PubSub).seenMessage
+//@   property C02
+//@   modifies nothing
+//@   ensures member: result == seenIn(p, id)
+
+//@ func (*PubSub).markSeen
+//@   property C02
+//@   modifies tcSeen
+//@   ensures first: result == !old(seenIn(p, id))
+//@   ensures present: seenIn(p, id)
+//@   ensures others: forall c iface, x string :: c != p.seenMessages || x != id ==> tcSeen[c][x] == old(tcSeen[c][x])
+
+// msgIDGenerator.ID memoises: a message that already carries an ID keeps it and the
+// user-supplied generator is not called again.
+//@ func (*msgIDGenerator).ID
+//@   property C02
+//@   dynpure gen
+//@   requires msg: msg != nil
+//@   noframe
+//@   ensures memo: old(msg.ID) != "" ==> result == old(msg.ID) && calls((*msgIDGenerator).RawID) == old(calls((*msgIDGenerator).RawID))
+//@   ensures stored: result == msg.ID
+
+//@ func (*PubSub).checkSigningPolicy
+//@   property C03
+//@   requires msg: msg != nil && msg.Message != nil
+//@   noframe
+//@   ensures strict-sign: mustVerify(p) && mustSign(p) ==> (result != nil) == (msg.Message.Signature == nil)
+//@   ensures strict-nosign: mustVerify(p) && !mustSign(p) ==> (result != nil) == (msg.Message.Signature != nil ||
+//@        (p.signID == "" && (msg.Message.Seqno != nil || msg.Message.From != nil || msg.Message.Key != nil)))
+//@   ensures lax: !mustVerify(p) ==> result == nil
+//@   ensures error-kind: result != nil ==> typeis(result, ValidationError)
+//@   ensures reason-missing: mustVerify(p) && mustSign(p) && result != nil ==> unbox(result, ValidationError).Reason == RejectMissingSignature
+//@   ensures reason-unexpected: mustVerify(p) && !mustSign(p) && msg.Message.Signature != nil ==> unbox(result, ValidationError).Reason == RejectUnexpectedSignature
+//@   ensures reason-authinfo: mustVerify(p) && !mustSign(p) && msg.Message.Signature == nil && result != nil ==> unbox(result, ValidationError).Reason == RejectUnexpectedAuthInfo
+//@   ensures traced: (result != nil) == (calls((*pubsubTracer).RejectMessage) == old(calls((*pubsubTracer).RejectMessage)) + 1)
+//@   ensures traced-reason: result != nil ==> lastarg((*pubsubTracer).RejectMessage, 2) == unbox(result, ValidationError).Reason && lastarg((*pubsubTracer).RejectMessage, 1) == msg
+
+// vetted[m]: shouldPush returned true for message object m (definitional ghost, see ghost-effect)
+//@ ghost var vetted mset[ref]
+
+//@ func (*PubSub).shouldPush
+//@   property C02 C03 C16
+//@   requires msg: msg != nil && msg.Message != nil
+//@   noframe
+//@   modifies vetted
+//@   ghost-effect vetted: vetted[msg] == (result || old(vetted[msg])) && (forall x ref :: x != msg ==> vetted[x] == old(vetted[x]))
+//@   ensures blacklisted-forwarder: blk[msg.ReceivedFrom] ==> !result
+//@   ensures blacklisted-author: blk[authorOf(msg)] ==> !result
+//@   ensures blacklist-first: blk[msg.ReceivedFrom] || blk[authorOf(msg)] ==>
+//@        calls((*PubSub).checkSigningPolicy) == old(calls((*PubSub).checkSigningPolicy)) &&
+//@        calls((*msgIDGenerator).ID) == old(calls((*msgIDGenerator).ID)) &&
+//@        calls((*PubSub).seenMessage) == old(calls((*PubSub).seenMessage))
+//@   ensures blacklist-traced: blk[msg.ReceivedFrom] || blk[authorOf(msg)] ==>
+//@        calls((*pubsubTracer).RejectMessage) == old(calls((*pubsubTracer).RejectMessage)) + 1 &&
+//@        lastarg((*pubsubTracer).RejectMessage, 1) == msg &&
+//@        lastarg((*pubsubTracer).RejectMessage, 2) == ite(blk[msg.ReceivedFrom], RejectBlacklstedPeer, RejectBlacklistedSource)
+//@   ensures policy: result ==> calls((*PubSub).checkSigningPolicy) == old(calls((*PubSub).checkSigningPolicy)) + 1 &&
+//@        lastret((*PubSub).checkSigningPolicy) == nil && lastarg((*PubSub).checkSigningPolicy, 1) == msg
+//@   ensures self-origin: result ==> calls(Host.ID) == old(calls(Host.ID)) + 1 &&
+//@        !(authorOf(msg) == lastret(Host.ID) && msg.ReceivedFrom != lastret(Host.ID))
+//@   ensures unseen: result ==> calls((*PubSub).seenMessage) == old(calls((*PubSub).seenMessage)) + 1 &&
+//@        !lastret((*PubSub).seenMessage) && lastarg((*PubSub).seenMessage, 1) == lastret((*msgIDGenerator).ID) &&
+//@        lastarg((*msgIDGenerator).ID, 1) == msg
+
+// pushMsg: a message reaches publishMessage only through the validation front end (Push true)
+// and a fresh markSeen of its ID, and then exactly once.
+//@ func (*PubSub).pushMsg
+//@   property C02 C03 C04
+//@   requires msg: msg != nil
+//@   noframe
+//@   ensures validated: calls((*validation).Push) == old(calls((*validation).Push)) + 1 &&
+//@        lastarg((*validation).Push, 2) == msg && lastarg((*validation).Push, 1) == msg.ReceivedFrom
+//@   ensures seen-only-if-pushed: calls((*PubSub).markSeen) == old(calls((*PubSub).markSeen)) + ite(lastret((*validation).Push), 1, 0)
+//@   ensures seen-id: calls((*PubSub).markSeen) > old(calls((*PubSub).markSeen)) ==>
+//@        lastarg((*PubSub).markSeen, 1) == lastret((*msgIDGenerator).ID) && lastarg((*msgIDGenerator).ID, 1) == msg
+//@   ensures gate: calls((*PubSub).publishMessage) == old(calls((*PubSub).publishMessage)) +
+//@        ite(lastret((*validation).Push) && lastret((*PubSub).markSeen), 1, 0)
+//@   ensures same-message: calls((*PubSub).publishMessage) > old(calls((*PubSub).publishMessage)) ==> lastarg((*PubSub).publishMessage, 1) == msg
+
+// publishMessage: exactly one DELIVER_MESSAGE trace event, local delivery, and the router is
+// invoked with the same *Message unless the publication is local-only.
+//@ func (*PubSub).publishMessage
+//@   property C06 C19 C02
+//@   requires msg: msg != nil
+//@   noframe
+//@   ensures deliver-traced: calls((*pubsubTracer).DeliverMessage) == old(calls((*pubsubTracer).DeliverMessage)) + 1 &&
+//@        lastarg((*pubsubTracer).DeliverMessage, 1) == msg
+//@   ensures notified: calls((*PubSub).notifySubs) == old(calls((*PubSub).notifySubs)) + 1 && lastarg((*PubSub).notifySubs, 1) == msg
+//@   ensures local-only: old(msg.Local) ==> calls(PubSubRouter.Publish) == old(calls(PubSubRouter.Publish))
+//@   ensures forwarded: !old(msg.Local) ==> calls(PubSubRouter.Publish) == old(calls(PubSubRouter.Publish)) + 1 && lastarg(PubSubRouter.Publish, 1) == msg
+
+// ---- blacklist implementations against the Blacklist interface contract ----
+
+//@ func (MapBlacklist).Add
+//@   property C16
+//@   requires nonnil: b != nil
+//@   modifies map(b)
+//@   ensures added: p in b && result
+//@   ensures only: forall x string :: x != p ==> (x in b) == old(x in b)
+
+//@ func (MapBlacklist).Contains
+//@   property C16
+//@   modifies nothing
+//@   ensures member: result == (p in b)
+
+// TimeCachedBlacklist: membership is the time cache's membership of the peer's string form;
+// an added peer stays blacklisted until the cache entry expires (timecache contracts, C02).
+//@ func (*TimeCachedBlacklist).Add
+//@   property C16
+//@   modifies tcSeen
+//@   ensures added: tcSeen[b.tc][peerstr(p)]
+//@   ensures result: result == !old(tcSeen[b.tc][peerstr(p)])
+//@   ensures only: forall c iface, x string :: c != b.tc || x != peerstr(p) ==> tcSeen[c][x] == old(tcSeen[c][x])
+
+//@ func (*TimeCachedBlacklist).Contains
+//@   property C16
+//@   modifies nothing
+//@   ensures member: result == tcSeen[b.tc][peerstr(p)]
+
+// Routers may look at the messages about to be validated but must not replace them.
+//@ iface PubSubRouter.Preprocess
+//@   ensures kept: len(msgs) == old(len(msgs)) && (forall i int :: 0 <= i && i < len(msgs) ==> msgs[i] == old(msgs[i]))
+
+// handleIncomingRPC, admission part: subscriptions are processed first, then the router's
+// AcceptFrom verdict decides: AcceptNone drops payload and control; AcceptControl drops payload
+// only; AcceptAll pushes exactly the messages that shouldPush vetted. (The subscription
+// bookkeeping of the first loop is specified under C05/C18.)
+//@ spec fn nPush() int = calls((*PubSub).pushMsg) - old(calls((*PubSub).pushMsg))
+//@ spec fn nShould() int = calls((*PubSub).shouldPush) - old(calls((*PubSub).shouldPush))
+//@ spec fn nHandle() int = calls(PubSubRouter.HandleRPC) - old(calls(PubSubRouter.HandleRPC))
+//@ spec fn nAccept() int = calls(PubSubRouter.AcceptFrom) - old(calls(PubSubRouter.AcceptFrom))
+//@ func (*PubSub).handleIncomingRPC
+//@   property C03 C09 C16
+//@   requires rpc: rpc != nil
+//@   requires decoded: forall i int :: 0 <= i && i < len(rpc.RPC.Publish) ==> rpc.RPC.Publish[i] != nil
+//@   noframe
+//@   loop 1 invariant quiet: nPush() == 0 && nShould() == 0 && nHandle() == 0 && nAccept() == 0
+//@   loop 2 invariant vetting: nPush() == 0 && nHandle() == 0 && nAccept() == 1 && lastret(PubSubRouter.AcceptFrom) == AcceptAll &&
+//@        (forall i int :: 0 <= i && i < len(toPush) ==> vetted[toPush[i]] && toPush[i] != nil && allocated(toPush[i]))
+//@   loop 3 invariant pushing: nHandle() == 0 && nAccept() == 1 && lastret(PubSubRouter.AcceptFrom) == AcceptAll &&
+//@        (forall i int :: 0 <= i && i < len(toPush) ==> vetted[toPush[i]] && toPush[i] != nil && allocated(toPush[i]))
+//@   at call pushMsg assert only-vetted: vetted[$arg1]
+//@   ensures vet-once: nAccept() <= 1
+//@   ensures graylisted: nAccept() == 1 && lastret(PubSubRouter.AcceptFrom) == AcceptNone ==> nPush() == 0 && nShould() == 0 && nHandle() == 0
+//@   ensures throttled: nAccept() == 1 && lastret(PubSubRouter.AcceptFrom) == AcceptControl ==> nPush() == 0 && nShould() == 0 &&
+//@        nHandle() == 1 && lastarg(PubSubRouter.HandleRPC, 1) == rpc
+//@   ensures accepted: nAccept() == 1 && lastret(PubSubRouter.AcceptFrom) == AcceptAll ==> nHandle() == 1 && lastarg(PubSubRouter.HandleRPC, 1) == rpc
+//@   ensures vetted-peer: nAccept() == 1 ==> lastarg(PubSubRouter.AcceptFrom, 1) == old(rpc.from)
+//@   ensures no-accept-no-processing: nAccept() == 0 ==> nPush() == 0 && nShould() == 0 && nHandle() == 0
